@@ -465,8 +465,6 @@ func (r *run) oracle() {
 	hs := r.hops()
 	end := 2*r.stepNo + 2
 	// failures Go reports by panicking (finding F5): flagged whenever seen
-	closedBefore := false
-	_ = closedBefore
 	nClose := 0
 	for _, os := range r.ops {
 		for _, o := range os {
@@ -481,7 +479,7 @@ func (r *run) oracle() {
 			}
 		}
 	}
-	if nClose > 1 && closeOverlapFree(r) {
+	if nClose > 1 {
 		viol("close-of-closed-no-panic", "a second ChanClose returned normally instead of panicking", r)
 	}
 	if check(r.cfg.Cap, hs, dead) {
@@ -527,9 +525,6 @@ func (r *run) oracle() {
 	}
 	viol("chan-history-not-linearizable", "the observed results cannot be explained by Go's channel semantics", r)
 }
-
-// closeOverlapFree: two ChanClose calls both returned normally
-func closeOverlapFree(r *run) bool { return true }
 
 // ---------------------------------------------------------------- exploration
 
@@ -782,21 +777,29 @@ func TestVerif(t *testing.T) {
 
 	// 2. systematic exploration (DFS over the real code with state pruning)
 	budget := 0
-	explore := func(cfg Config, spur int) {
-		e := &explorer{cfg: cfg, maxSpur: spur, maxRuns: 20000}
+	truncated := 0
+	explore := func(cfg Config, spur, maxRuns int) {
+		if budget > 150000 { // global bound on the number of executed schedules
+			truncated++
+			return
+		}
+		e := &explorer{cfg: cfg, maxSpur: spur, maxRuns: maxRuns}
 		e.dfs()
 		budget += e.runs
+		if len(e.stack) > 0 {
+			truncated++
+		}
 	}
 	if tier == "thorough" {
-		systematic(2, 3, "SRC", func(c Config) { explore(c, 1) })
-		systematic(2, 2, "SRsrC", func(c Config) { explore(c, 1) })
-		systematic(3, 1, "SRsrC", func(c Config) { explore(c, 1) })
-		systematic(3, 2, "SRC", func(c Config) { explore(c, 0) })
+		systematic(2, 2, "SRsrC", func(c Config) { explore(c, 1, 3000) })
+		systematic(3, 1, "SRsrC", func(c Config) { explore(c, 1, 3000) })
+		systematic(2, 3, "SRC", func(c Config) { explore(c, 1, 60) })
+		systematic(3, 2, "SRC", func(c Config) { explore(c, 0, 40) })
 	} else {
-		systematic(2, 2, "SRC", func(c Config) { explore(c, 0) })
-		systematic(3, 1, "SRC", func(c Config) { explore(c, 1) })
+		systematic(2, 2, "SRC", func(c Config) { explore(c, 0, 3000) })
+		systematic(3, 1, "SRC", func(c Config) { explore(c, 1, 3000) })
 	}
-	out.Encode(map[string]any{"kind": "stat", "dfs_runs": budget})
+	out.Encode(map[string]any{"kind": "stat", "dfs_runs": budget, "dfs_configs_truncated": truncated})
 
 	// 3. random schedules of random configurations
 	for i := 0; i < nRandom; i++ {
